@@ -23,8 +23,10 @@ mod schema;
 mod c16;
 mod c04;
 mod c04t;
+mod c04m;
 mod typed;
 mod c07;
+mod streamraw;
 
 fn main() {
     let args: Vec<String> = std::env::args().collect();
@@ -38,8 +40,8 @@ fn main() {
     match prop {
         "C18" => c18::run(&mut sink, thorough, seed),
         "C01" | "C02" | "C11" => c01::run(&mut sink, prop, thorough, seed),
-        "C14" => { c01::run(&mut sink, prop, thorough, seed); typed::run_tdepth(&mut sink, thorough, seed); }
-        "C09" => { c01::run(&mut sink, prop, thorough, seed); typed::run_tt3(&mut sink, thorough, seed); }
+        "C14" => { c01::run(&mut sink, prop, thorough, seed); typed::run_tdepth(&mut sink, thorough, seed); streamraw::run_c14(&mut sink, thorough, seed); }
+        "C09" => { c01::run(&mut sink, prop, thorough, seed); typed::run_tt3(&mut sink, thorough, seed); streamraw::run_c09(&mut sink, thorough, seed); }
         "C20" => {
             // number-alphabet strings for Number::from_str + accessors, typed targets, whole documents, verbatim text
             c06::run(&mut sink, thorough, seed);
@@ -53,9 +55,11 @@ fn main() {
             c01::run(&mut sink, prop, thorough, seed);
             #[cfg(feature = "rv")]
             c19::run(&mut sink, thorough, seed);
+            #[cfg(feature = "rv")]
+            streamraw::raw::run_c19(&mut sink, thorough, seed);
         }
         "C06" => c06::run(&mut sink, thorough, seed),
-        "C10" => { c10::run(&mut sink, thorough, seed); typed::run_pfxs(&mut sink, thorough, seed); }
+        "C10" => { c10::run(&mut sink, thorough, seed); typed::run_pfxs(&mut sink, thorough, seed); streamraw::run_c10(&mut sink, thorough, seed); }
         "C12" => c12::run(&mut sink, thorough, seed),
         "C13" => { c13::run(&mut sink, thorough, seed); typed::run_rfaults(&mut sink, thorough, seed); }
         "C05" => { c05::run(&mut sink, thorough, seed); c01::run(&mut sink, prop, thorough, seed); }
@@ -64,7 +68,10 @@ fn main() {
         "C08" => c08::run(&mut sink, thorough, seed),
         "C15" => c15::run(&mut sink, thorough, seed),
         "C16" => { c16::run(&mut sink, thorough, seed); typed::run_tt(&mut sink, thorough, seed); }
-        "C04" => c04::run(&mut sink, thorough, seed),
+        "C04" => {
+            c04::run(&mut sink, thorough, seed);
+            c04m::run(&mut sink, thorough, seed);
+        }
         "C07" => c07::run(&mut sink, thorough, seed),
         "replay" => { /* replay lines are `op args…` on stdin */
             let mut s = String::new();
@@ -92,6 +99,8 @@ fn replay(sink: &mut common::Sink, toks: &[&str]) {
         "int" | "acc" | "iprint" => c06::replay(sink, toks),
         #[cfg(feature = "ap")]
         "numtext" | "reprint" => c20::replay(sink, toks),
+        #[cfg(feature = "ap")]
+        "accbig" => c20::replay(sink, toks),
         "stream" => c12::replay(sink, toks),
         "rfault" | "rfaultt" | "sfault" | "wfault" => c13::replay(sink, toks),
         #[cfg(feature = "rv")]
@@ -103,8 +112,10 @@ fn replay(sink: &mut common::Sink, toks: &[&str]) {
         "tov" | "tovagree" => c15::replay(sink, toks),
         "c16" => c16::replay(sink, toks),
         "rtv" | "rtt" => c04::replay(sink, toks),
+        "rtm" => c04m::replay(sink, toks),
         "tt" | "tt3" | "pfxs" | "rfaults" => typed::replay(sink, toks),
         "f64rt" | "f32rt" | "f64pr" | "f32pr" | "f32all" => c07::replay(sink, toks),
+        "rawser" | "rawnest" | "stream3" | "sdepth" | "spfx" | "raw3" => streamraw::replay(sink, toks),
         _ => eprintln!("cannot replay op {}", toks[0]),
     }
 }
